@@ -38,6 +38,7 @@ REQUIRED = {
     "mon:assertThat.raises-iff-mismatch": 300,
     "mon:assert_that.raises-iff-mismatch": 300,
     "mon:expectThat.never-raises": 300,
+    "mon:describe()-is-repeatable-and-shown": 1000,
     "mon:expectThat.test-fails-afterwards": 100,
     "mon:mismatch-details.non-clobbering": 100,
 }
@@ -98,6 +99,17 @@ def x_describe(ctx, case):
             ok, err, d = False, e, None
         ctx.check(ok, "describe()-returns-text",
                   lambda: {"how": label, "error": repr(err), "returned": repr(d)[:200], **detail()})
+        if ok:
+            # asking again (a handler that logs the mismatch before the error is rendered, say) gives the
+            # same description, and the error text carries it
+            try:
+                d2 = mismatch.describe()
+                shown = str(MismatchError(v, matcher, mismatch, False))
+            except Exception as e:  # noqa
+                d2 = shown = repr(e)
+            ctx.check(d2 == d and d in shown, "describe()-is-repeatable-and-shown",
+                      lambda: {"how": label, "first": d[:200], "second": d2[:200], "str(MismatchError)": shown[:200],
+                               **detail()})
         try:
             det = mismatch.get_details()
             ok = isinstance(det, dict) and all(hasattr(c, "iter_bytes") and hasattr(c, "content_type")
